@@ -70,7 +70,8 @@ def run(tier):
                      'MindsDBLexer.error', 'grammar actions as units (see obligation list)']
     run.assumptions = ['SYMTOK: token values are one representative lexeme per terminal; value-dependent crashes are the CH action units\' job',
                        'RecursionError: a concrete size family (every directly recursive production pumped 600/900 times in its shortest context, plus operator chains / nestings written out) must parse or be rejected; deeper input is outside the claim',
-                       'lexer totality for arbitrary text: see U1 (error reporter) and C01 (LEXZ3)']
+                       'lexer totality for arbitrary text: see U1 (error reporter) and C01 (LEXZ3)',
+                       'input without tokens: the empty stream through the real tail, and texts of <= 2 / 3 segments drawn from z3 models of every ignore_* rule of the live lexer (<= 10 characters, up to 4 per rule), the ignored characters and semicolons']
     for d in SW.DIALECTS:
         for K in KS:
             res, size = SW.sweep_space1(d, K)
@@ -99,6 +100,11 @@ def run(tier):
     c02u2.add(run, tier)
     from harness import c02deep
     c02deep.add(run, tier)
+    from harness import c02empty
+    try:
+        c02empty.add(run, tier)
+    except Exception as e:  # noqa
+        run.error('no-token family crashed: %r' % e)
     run.finish()
 
 
@@ -115,6 +121,9 @@ def replay(path):
                 print('native replay now:', res)
                 return 1 if res[2].startswith(('internal', 'non-tree')) else 0
         return 2
+    if r['replay'].get('no_tokens'):
+        from harness import c02empty
+        return c02empty.replay(r)
     f = r['replay'].get('finding')
     if f:
         rep, info = replay_internal(f)
